@@ -21,6 +21,7 @@ C05-c allocation and release address the same bit: every Set/Clear/IsSet on a bi
 C05-d counter dimension: what is added to superblock.freeBlocks / groupDescriptor.freeBlocks is a count of filesystem blocks (bitmap bits, extent counts), never inode.blocks (512-byte units unless the huge-file flag says otherwise).
 C05-e layout agreement (byte-layout extraction) of superblock, group descriptor, inode and directory entry encoders and parsers.
 C05-f a removed inode is released on disk: Remove stores 0 into the removed inode's link count (or a deletion time) and writes that inode back, so that the inode table agrees with the cleared bitmap bit.
+C05-g writeDirectory stores a directory inode's size and block count so that they depend on the block count of its extents (a directory never gives blocks back).
 Not covered: layout at mkfs time, link counts of parents, extent trees, directory block packing, what happens after a refused operation.`)
 	register("C04", runC04, `Structural clauses of the ext4 tree behaviour, decided statically.
 C04-a write-back pairing (typestate): after a store to a field of an inode that was loaded from disk (not a freshly built one), every success return of Chmod, Chown, Chtimes, Truncate, Symlink, mkDirEntry and File.Write is reached only through writeInode; the flush guarded by "size or block count changed" in File.Write is recognised.
@@ -28,7 +29,8 @@ C04-b frame conditions: Chmod, Chown and Chtimes store only their own inode fiel
 C04-c allocation and release address the same bit (shared with C05-c): a file removed and a file created afterwards cannot share blocks or inodes with a live file.
 C04-d an inode read from an arbitrary directory entry may have no extent tree (a symlink stored in the inode, a special file): every method call on its extents field is dominated by a nil test, as OpenFile does.
 C04-e Remove rewrites the parent directory in all of its blocks (through writeDirectory, or every iteration of its block loop writes the block), so that no block keeps entries of the old listing.
-Not covered: extent mapping arithmetic in File.Read/Write, directory block packing, path walking, equality with a reference tree.`)
+C04-f in the extent loops of File.Read/Write an extent whose end (fileBlock+count, exclusive) equals the start block is skipped.
+Not covered: the rest of the extent mapping arithmetic in File.Read/Write, directory block packing, path walking, equality with a reference tree.`)
 }
 
 const pE4c = "filesystem/ext4"
@@ -51,6 +53,8 @@ func runC05(w *World, r *Report) {
 	c05Dimension(w, r)
 	runCodecFamily(w, r, "C05-e", codecPairsC05)
 	c05RemoveReleasesInode(w, r)
+	c05DirSize(w, r)
+	r.Floor("C05-g", r.countRule("C05-g"), 2)
 	r.Floor("C05-a", r.countRule("C05-a"), 30)
 	r.Floor("C05-b", r.countRule("C05-b"), 3)
 	r.Floor("C05-c", r.countRule("C05-c"), 9)
@@ -75,6 +79,8 @@ func runC04(w *World, r *Report) {
 	c05BitIndex(w, r, "C04-c")
 	c04ExtentsNil(w, r)
 	c04DirRewrite(w, r)
+	c04ExtentBoundary(w, r)
+	r.Floor("C04-f", r.countRule("C04-f"), 2)
 	r.Floor("C04-d", r.countRule("C04-d"), 1)
 	r.Floor("C04-e", r.countRule("C04-e"), 1)
 	r.Floor("C04-a", r.countRule("C04-a"), 5)
@@ -1459,4 +1465,151 @@ func cycleThroughWithin(b, h *ssa.BasicBlock) map[*ssa.BasicBlock]bool {
 		}
 	}
 	return out
+}
+
+// ---------------------------------------------------------------------------------------------------
+// C04-f extent boundary
+
+// c04ExtentBoundary: in the extent loops of ext4 File.Read / File.Write an extent is skipped when it ends at or before
+// the block the transfer starts in. fileBlock+count is the first block AFTER the extent, so the comparison of that sum
+// with the start block must send the equality case down the skipping edge; otherwise the previous extent is processed
+// with a position beyond its end and the length of the transfer goes negative (makeslice panic).
+func c04ExtentBoundary(w *World, r *Report) {
+	for _, mn := range []string{"Read", "Write"} {
+		fn := w.Method(pE4c, "File", mn)
+		var io *ssa.BasicBlock
+		for _, c := range calls(fn, false, func(c ssa.CallInstruction) bool { return isReadAt(c) || isWriteAt(c) }) {
+			if len(cycleThrough(c.Block())) > 0 {
+				io = c.Block()
+			}
+		}
+		n := 0
+		for _, b := range fn.Blocks {
+			iff, ok := lastInstr(b).(*ssa.If)
+			if !ok {
+				continue
+			}
+			cond, tIdx := boolCondEdge(iff)
+			bin, ok := cond.(*ssa.BinOp)
+			if !ok {
+				continue
+			}
+			isEnd := func(v ssa.Value) bool {
+				hasFB, hasCnt := false, false
+				for _, t := range addends(v) {
+					if t.neg {
+						return false
+					}
+					pv := w.prov(t.v, provOpts{})
+					if pv.hasField("extent", "fileBlock") && !pv.hasField("extent", "count") {
+						hasFB = true
+					}
+					if pv.hasField("extent", "count") && !pv.hasField("extent", "fileBlock") {
+						hasCnt = true
+					}
+				}
+				return hasFB && hasCnt
+			}
+			if os.Getenv("DFS_C04_DEBUG") != "" && (bin.Op == token.LEQ || bin.Op == token.LSS) {
+				fmt.Printf("DEBUG cond %s: X terms:", bin.String())
+				for _, t := range addends(bin.X) {
+					fmt.Printf(" [%v %s roots=%v]", t.neg, t.v.String(), w.prov(t.v, provOpts{}).rootStrings())
+				}
+				fmt.Println()
+			}
+			if !isEnd(bin.X) && !isEnd(bin.Y) {
+				continue
+			}
+			var atEq bool
+			switch bin.Op {
+			case token.LEQ, token.GEQ, token.EQL:
+				atEq = true
+			case token.LSS, token.GTR, token.NEQ:
+				atEq = false
+			default:
+				continue
+			}
+			if os.Getenv("DFS_C04_DEBUG") != "" {
+				fmt.Printf("DEBUG isEnd ok; io=%v atEq=%v\n", io != nil, atEq)
+			}
+			if io == nil {
+				continue
+			}
+			n++
+			// the edge that skips the extent: the successor that does not lead to the transfer within this iteration
+			skipIdx := -1
+			loop := cycleThrough(io)
+			var header *ssa.BasicBlock
+			for x := range loop {
+				for _, p := range x.Preds {
+					if !loop[p] && x.Dominates(io) {
+						header = x
+					}
+				}
+			}
+			reachesIO := func(from *ssa.BasicBlock) bool {
+				seen := map[*ssa.BasicBlock]bool{}
+				st := []*ssa.BasicBlock{from}
+				for len(st) > 0 {
+					x := st[len(st)-1]
+					st = st[:len(st)-1]
+					if seen[x] || x == header || !loop[x] {
+						continue
+					}
+					seen[x] = true
+					if x == io {
+						return true
+					}
+					st = append(st, x.Succs...)
+				}
+				return false
+			}
+			for k, s := range b.Succs {
+				if !reachesIO(s) {
+					skipIdx = k
+				}
+			}
+			if skipIdx < 0 {
+				continue
+			}
+			eqTakes := 1 - tIdx // successor index taken when the condition is false
+			if atEq {
+				eqTakes = tIdx
+			}
+			r.Check(eqTakes == skipIdx, "C04-f", fnName(fn), fmt.Sprintf("an extent ending exactly at the start block is skipped #%d", n), w.relFile(iff.Pos()), "",
+				"the extent loop compares fileBlock+count (the first block after the extent) with the block the transfer starts in so that equality does not skip the extent: a transfer starting in the first block of a later extent processes the previous extent with a position beyond its end and panics (makeslice: len out of range)")
+		}
+		if n == 0 {
+			r.Undecided("C04-f", fnName(fn), "extent boundary test", w.relFile(fn.Pos()), "no comparison of an extent's end (fileBlock+count) with the start block found in the extent loop")
+		}
+	}
+}
+
+// ---------------------------------------------------------------------------------------------------
+// C05-g directory size and block count follow the extents
+
+// c05DirSize: writeDirectory stores the directory inode's size and block count. A directory never gives blocks
+// back, so both must account for the blocks its extents map, not only for the bytes of the current listing: the
+// stored values depend (by data or by the condition selecting them) on the extents' block count.
+func c05DirSize(w *World, r *Report) {
+	wd := w.Method(pE4c, "FileSystem", "writeDirectory")
+	n := 0
+	allInstrs(wd, func(ins ssa.Instruction) {
+		st, ok := ins.(*ssa.Store)
+		if !ok {
+			return
+		}
+		nm, f, _, ok := fieldOfAddr(st.Addr)
+		if !ok || nm == nil || nm.Obj().Name() != "inode" || (f.Name() != "size" && f.Name() != "blocks") {
+			return
+		}
+		n++
+		pv := w.prov(st.Val, provOpts{phiControl: true, sliceLen: true, throughExternal: true})
+		dep := pv.hasCallNamed("blockCount")
+		r.Check(dep, "C05-g", fnName(wd), fmt.Sprintf("directory inode %s accounts for the blocks the extents map #%d", f.Name(), n), w.relFile(instrPos(st)), "",
+			"writeDirectory sets the directory inode's "+f.Name()+" from the bytes of the listing alone: after entries were removed the directory owns more blocks than the listing needs, and the inode then describes fewer blocks than its extent tree maps (e2fsck: i_size / i_blocks wrong)")
+	})
+	if n == 0 {
+		r.Undecided("C05-g", fnName(wd), "directory inode size and blocks", w.relFile(wd.Pos()), "writeDirectory does not store the directory inode's size/blocks itself")
+	}
 }
